@@ -9,7 +9,10 @@
    Theorem sms_from_lc: if LCstar holds in every reachable ghost state, then State Machine Safety
    (C40_raft_sms_stmt) holds for every execution.  The proof uses the log invariant LInv (every
    entry's term has an elected leader), the well-formedness invariant (commit <= length) and the
-   stability of each member's own committed prefix.  LCstar itself is NOT proved. *)
+   stability of each member's own committed prefix.  LCstar itself is NOT proved, and is stronger
+   than what Raft guarantees (an old-term entry may be committed only transitively in a later term);
+   the full result (Proto/PRaftLC5.v, raft_sms) goes through commit soundness + the vote invariant
+   instead. *)
 From Coq Require Import Lia ZifyBool ZifyN Arith.
 From HV Require Import Proto.RaftNet Proto.PRaftLocal Proto.PRaftElection Proto.PRaftRefine Proto.PRaftWf
   Proto.PRaftLogLemmas Proto.PRaftLog Proto.PRaftLogRefine.
